@@ -146,6 +146,21 @@ func genClusterNodesGarbage(r *simhook.Rand) string {
 		id(1) + " 10.0.0.1:7000@17000 master - 0 0 1 connected 0-16383",
 		"", " ", "x", "a b c d e f g h", "a b:1 c - e f g h i",
 	}
+	// slot numbers around every boundary, as single slots and in ranges
+	edge := []string{"0", "1", "16382", "16383", "16384", "16385", "32767", "32768", "65535", "65536", "2147483647", "2147483648", "4294967296", "9223372036854775807"}
+	for i := 0; i < 6; i++ {
+		a, b := edge[r.Intn(len(edge))], edge[r.Intn(len(edge))]
+		switch r.Intn(3) {
+		case 0:
+			lines = append(lines, id(4)+" 10.0.0.1:7000@17000 master - 0 0 1 connected "+a)
+		case 1:
+			lines = append(lines, id(4)+" 10.0.0.1:7000@17000 master - 0 0 1 connected 5 "+a+" 7")
+		default:
+			if len(a) < 7 && len(b) < 7 {
+				lines = append(lines, id(4)+" 10.0.0.1:7000@17000 master - 0 0 1 connected "+a+"-"+b)
+			}
+		}
+	}
 	n := 1 + r.Intn(4)
 	var sb strings.Builder
 	for i := 0; i < n; i++ {
